@@ -34,19 +34,19 @@ def chk(pid, text, tech, ref, note=HIST_NOTE, level="exploration"):
 checks = [
  chk("C05","Seeded deterministic simulation: optimise is a per-run knob and Blocker::optimize() a generated operation inside histories (tag switches, add_filter, clock/eviction noise, allocator address recycling); every query of the full probe set is compared with a never-optimised engine built from the same rules. 16k runs quick, 600k thorough; violations are minimised to a replay file.",
      "deterministic simulation: seeded operation histories with simulated clock/allocator/hash seeds vs never-optimised reference engine","DESIGN.md section 4 (C05)"),
- chk("C06","Seeded deterministic simulation of operation histories over Engine and Blocker (check/csp/cosmetic queries, use/enable/disable tags, discard policy, clock jumps around both thresholds, explicit regex eviction, optimise, add_filter, serialize, deserialize incl. foreign bytes, crash-restart, resource changes) under a simulated clock, a seeded allocator that decides which freed rule address is reused, and seeded hash keys; after every state change the most recent query and then the full probe set are compared with a freshly built engine whose answers were computed on a fresh thread; state changes can run on a helper thread; the first 192 runs are repeated in other processes with other predecessors (process-level isolation).",
+ chk("C06","Seeded deterministic simulation of operation histories over Engine and Blocker (check/csp/cosmetic queries, use/enable/disable tags, discard policy, clock jumps around both thresholds, explicit regex eviction, optimise, add_filter, serialize, deserialize incl. foreign bytes, loads of damaged buffers that must be rejected, bursts of one operation repeated up to 65 537 times, crash-restart, resource changes) under a simulated clock, a seeded allocator that decides which freed rule address is reused, and seeded hash keys; after every state change the most recent query and then the full probe set are compared with a freshly built engine and the tag set with the model, whose answers were computed on a fresh thread; state changes can run on a helper thread; the first 192 runs are repeated in other processes with other predecessors (process-level isolation).",
      "deterministic simulation with fault injection: seeded histories, simulated clock, seeded address reuse, eviction faults vs fresh-engine oracle","DESIGN.md section 4 (C06)"),
- chk("C07","Seeded deterministic simulation of tag histories (use/enable/disable incl. empty, duplicate, unknown tags; serialize/deserialize into engines with other enabled sets; restart) checked against a set-algebra model for tag_exists and a tag-free reference engine (enabled tags stripped from rules, disabled tagged rules deleted) for every verdict and CSP answer.",
+ chk("C07","Seeded deterministic simulation of tag histories (use/enable/disable incl. empty, duplicate, unknown tags; serialize/deserialize into engines with other enabled sets; rejected loads of damaged buffers; restart) checked against a set-algebra model for tag_exists and a tag-free reference engine (enabled tags stripped from rules, disabled tagged rules deleted) for every verdict and CSP answer.",
      "deterministic simulation: seeded tag/reload histories vs set model and tag-free reference engine","DESIGN.md section 4 (C07)"),
  chk("C08","Seeded deterministic simulation: at arbitrary points of a history the engine is serialized to a simulated (fault-free) disk and reloaded by crash-restart or into a live engine holding other rules and tags; afterwards every network, CSP, cosmetic and class/id query under subsequent tag operations is compared with an engine built from the rule list the bytes came from.",
      "deterministic simulation: crash-restart/reload at arbitrary history points vs engine built from the list","DESIGN.md section 4 (C08)"),
- chk("C09","Seeded deterministic simulation with the hash-seed source (getrandom) as a simulator-owned seam: every generated rule list is built 8 times on fresh threads under different hash keys, allocator policies and order-preserving chunkings, and for ~5% of lists again in a child process (thorough: with the kernel's real getrandom); all buffers must be byte-identical, and three reload variants plus a tags-enabled pair must reproduce the buffer exactly.",
+ chk("C09","Seeded deterministic simulation with the hash-seed source (getrandom) as a simulator-owned seam: every generated rule list is built 8 times on fresh threads under different hash keys, allocator policies and order-preserving chunkings, and for ~5% of lists again in a child process (thorough: with the kernel's real getrandom); all buffers must be byte-identical, and four reload variants, a tags-enabled pair and three load histories (rejected load, image of an empty engine, then the tagged image) must reproduce the buffer exactly.",
      "deterministic simulation: simulator-owned hash seeds / threads / processes, byte-for-byte comparison of serialized buffers and reload fixpoint","DESIGN.md section 4 (C09)",
      "Trusted base: the getrandom interposition (evidence reports how many distinct iteration orders it induced), the generator. Stability across versions/platforms is not claimed."),
- chk("C10","Fault enumeration on a simulated disk between serialize_raw and deserialize: for every sampled buffer every prefix (torn write), every single-bit flip, every stale-tail cut against an older image, the lost write, 20 marker substitutions at every msgpack value offset, string substitution (27 degenerate strings for every stored string), JSON mutation and whole-value substitution are enumerated completely; zeroed/duplicated ranges, multi-byte corruption and free-form strings under every header variant are sampled. Each case is loaded into a non-empty engine under catch_unwind and allocator accounting: Err must leave bytes, tags and answers unchanged; Ok must be followed by total queries, a tag switch and re-serialization; allocation is bounded; worker-process death is a violation; every 50th case is followed by the same bytes again (an Err stays an Err) and by a fault-free load of the pristine image under another tag set that must behave like the engine the image was taken from.",
+ chk("C10","Fault enumeration on a simulated disk between serialize_raw and deserialize: for every sampled buffer every prefix (torn write), every single-bit flip, every stale-tail cut against an older image, the lost write, 20 marker substitutions at every msgpack value offset, string substitution (27 degenerate strings for every stored string), JSON mutation and whole-value substitution are enumerated completely; zeroed/duplicated ranges, multi-byte corruption and free-form strings under every header variant are sampled. Each case is loaded into a non-empty engine under catch_unwind and allocator accounting: Err must leave bytes, tags and answers unchanged; Ok must be followed by total queries, simulated time passing (181 s, 31 s) with queries, a tag switch and re-serialization; allocation is bounded; worker-process death is a violation; every 50th case is followed by the same bytes again (an Err stays an Err) and by a fault-free load of the pristine image under another tag set that must behave like the engine the image was taken from.",
      "simulated-disk fault enumeration (torn/short/stale/bit-flip/marker) with allocator accounting and process isolation","DESIGN.md section 4 (C10)",
      "Trusted base: the fault generator and msgpack walker, the allocator accounting, catch_unwind. Buffers are sampled (16 quick / 400 thorough); per buffer the listed single-fault kinds are complete.", level="fault_enumeration"),
- chk("C19","Seeded schedule search with shuttle over the real thread-safe build (sources of /repo with std::sync/std::thread redirected to shuttle in a generated copy): 1-3 concurrent phases of 2-4 threads x 1-6 mixed queries on one shared Arc<Engine>/Arc<Blocker> (tag switch / optimize / reload / resource change under exclusive access between phases), or long-lived workers behind Arc<RwLock<..>> with a mutator thread, optionally a second engine queried concurrently; regex-heavy rules, aggressive or default-like discard policy, seeded address reuse, a clock advancing on every read, scheduling points inside RegexManager, thread_local! of the crate redirected to shuttle; every concurrent answer must equal a sequentially queried twin, with no deadlock, poison, panic or two threads inside the regex manager. Plus a seed-for-seed differential of 1600 (quick) C06 histories between the default and the thread-safe build, and a compile check of the thread-safe configuration (static Send+Sync assertion).",
+ chk("C19","Seeded schedule search with shuttle over the real thread-safe build (sources of /repo with std::sync/std::thread redirected to shuttle in a generated copy): 1-3 concurrent phases of 2-4 threads x 1-6 mixed queries (incl. the same URL on behalf of a page inside and a page outside a rule's $domain list) on one shared Arc<Engine>/Arc<Blocker> (tag switch / optimize / reload / resource change under exclusive access between phases), or long-lived workers behind Arc<RwLock<..>> with a mutator thread, optionally a second engine queried concurrently; regex-heavy rules, aggressive or default-like discard policy, seeded address reuse, a clock advancing on every read, scheduling points inside RegexManager, thread_local! of the crate redirected to shuttle; every concurrent answer must equal a sequentially queried twin, with no deadlock, poison, panic or two threads inside the regex manager. Plus a seed-for-seed differential of 1600 (quick) C06 histories between the default and the thread-safe build, and a compile check of the thread-safe configuration (static Send+Sync assertion).",
      "deterministic simulation: shuttle random/PCT schedule search with persisted replayable schedules + configuration differential","DESIGN.md section 4 (C19)",
      "Trusted base: shuttle 0.9.3, the textual std::sync->shuttle redirection (mkshadow.py), the yield-point hooks. Shuttle preempts only at synchronisation operations and hook points; unsynchronised data races are outside its view."),
 ]
